@@ -994,7 +994,13 @@ def identity_rule(ctx):
     identity_compare(ctx, 'C03.identity', ['bumble.host', 'bumble.controller', 'bumble.link'])
 
 
+def flag_width(ctx):
+    from ..generic_rules import to_bytes_width
+    to_bytes_width(ctx, 'C03.flag-width', ['bumble.controller'])
+
+
 RULES = [
+    ('C03.flag-width', flag_width),
     ('C03.identity', identity_rule),
     ('C03.lmp-pending', lmp_pending_rule),
     ('C03.ll-coverage', ll_coverage),
